@@ -5422,6 +5422,9 @@ class TensorDictBase(MutableMapping):
                     )
                 if not return_early:
                     wait(r)
+                    for future in r:
+                        # re-raise the exceptions encountered in the threads, if any
+                        future.result()
                 else:
                     # TODO: We'd need to merge the second half of this function to make this a thing
                     raise NotImplementedError(
